@@ -167,6 +167,20 @@ class Interp:
         self.trace = trace
         self.out = out
         self.model = dict(DEFAULT)
+        self.target = trace.get("target", "global")
+        if self.target == "instance":
+            # a second Settings object with its own (non-default) values: the context must restore *its* previous values
+            init = trace.get("init", {})
+            self.model.update(init)
+            self.S = fl.Settings(**{k: realize(k, v) for k, v in self.model.items()})
+            out.stats.hit("probes.own_settings_instance")
+        else:
+            self.S = fl.settings
+            if trace.get("lazy_fm"):
+                # a fresh interpreter: the default factory manager does not exist yet (created lazily on first use)
+                self.S._factory_manager = None
+                self.model["factory_manager"] = "NONE"
+                out.stats.hit("probes.factory_manager_not_yet_created")
         self.k = 0  # dynamic statement counter
         self.try_depth = 0
         self.ctx_depth = 0
@@ -194,9 +208,19 @@ class Interp:
         raise _Abort()
 
     def check(self, where: str) -> None:
-        v = vars(fl.settings)
+        v = vars(self.S)
+        if self.target == "instance":
+            g = vars(fl.settings)
+            if any(g[k2] is not v2 and g[k2] != v2 for k2, v2 in env.DEFAULTS.items()) or g["_factory_manager"] is not env.default_factory_manager():
+                self.fail("settings_mismatch", where=where, key="<global settings changed by a context on another Settings object>")
         for key in KEYS:
             real = v["_factory_manager" if key == "factory_manager" else key]
+            if key == "factory_manager" and self.model[key] == "NONE":
+                # not created yet, or created lazily meanwhile: anything but one of the managers a context installed
+                if real is not None and any(real is pool(c) for c in ("F1", "F2")):
+                    self.fail("settings_mismatch", where=where, key=key, expected="the lazily created default manager (or none yet)",
+                              found=describe(key, real), ctx_depth=self.ctx_depth)
+                continue
             want = realize(key, self.model[key])
             same = (real is want) if key in ("float_type", "logger", "factory_manager") else (
                 type(real) is type(want) and real == want)
@@ -240,7 +264,7 @@ class Interp:
         elif kind == "assign":
             key, code = s["key"], s["v"]
             try:
-                setattr(fl.settings, key, realize(key, code))
+                setattr(self.S, key, realize(key, code))
                 self.model[key] = code
                 self.emit(f"{k} ASSIGN {key}={code!r}")
             except Exception as e:  # a (hypothetical) validating setter may refuse the value: then nothing changed
@@ -341,7 +365,7 @@ class Interp:
         sig = None
         try:
             try:
-                cm = fl.settings.context(**real)
+                cm = self.S.context(**real)
                 with cm:
                     entered = True
                     for key, code in kw.items():
@@ -389,6 +413,8 @@ class Interp:
 
     def do_obs(self, k: int, s: dict) -> None:
         what = s["what"]
+        if self.target == "instance":
+            what = "vars"  # library helpers read the global settings object, not this one
         m = self.model
         st = self.out.stats
         crash = s.get("crash_line")
@@ -443,6 +469,8 @@ class Interp:
             imp = "import fuzzylite" if a == "" else ("from fuzzylite import *" if a == "*" else f"import fuzzylite as {a}")
             return (repr(fl.Minimum()), fl.library.representation.import_statement()), (prefix + "Minimum()", imp)
         if what == "fm":
+            if m["factory_manager"] == "NONE":
+                return any(fl.settings.factory_manager is pool(c) for c in ("F1", "F2")), False
             return fl.settings.factory_manager is pool(m["factory_manager"]), True
         if what == "logger":
             return fl.settings.logger is pool(m["logger"]), True
@@ -547,7 +575,8 @@ class C20(Sim):
         "base_exception_exit", "early_exit_return_break_continue", "exception_passed_a_try_level",
         "rule_loaded_through_swapped_factory", "raise_inside_context", "observation_inside_context",
         "assign_named_key_rolled_back", "assign_unnamed_key_persists", "helper_created_under_other_settings_used_now",
-        "context_inside_exception_handler", "context_inside_finally_while_exception_propagates",
+        "context_inside_exception_handler", "context_inside_finally_while_exception_propagates", "own_settings_instance",
+        "factory_manager_not_yet_created",
     ]
 
     # ---- generation --------------------------------------------------------
@@ -609,12 +638,20 @@ class C20(Sim):
         # the property quantifies over nestings up to depth 4; the thorough tier goes to 6 in a quarter of the runs
         self.max_depth = 6 if (tier == "thorough" and run % 8 >= 6) else 4
         arm = "enumerate" if run % 4 == 0 else ("linecrash" if run % 4 == 1 else "random")
+        def flavour() -> dict:
+            r = rng.random()
+            if r < 0.12:
+                return {"target": "instance", "init": {k: rng.choice(VALUES[k]) for k in rng.sample(KEYS, rng.randint(1, 7))}}
+            if r < 0.27:
+                return {"lazy_fm": True}
+            return {}
         if arm == "random":
             for _ in range(8):
-                yield {"arm": arm, "ops": self.gen_program(rng, raises=True)}
+                yield dict({"arm": arm, "ops": self.gen_program(rng, raises=True)}, **flavour())
             return
         prog = self.gen_program(rng, raises=False)
-        base = {"arm": arm, "ops": prog}
+        base = dict({"arm": arm, "ops": prog}, **flavour())
+        fl_extra = {k: base[k] for k in ("target", "init", "lazy_fm") if k in base}
         yield base
         env.reset_settings()
         probe = Outcome()
@@ -631,7 +668,7 @@ class C20(Sim):
             for pos, td in enumerate(it.positions):
                 for kind in kinds:
                     for lv in range(td + 1):
-                        yield {"arm": arm, "ops": prog, "inject": {"at": pos, "exc": kind, "levels": lv}}
+                        yield dict({"arm": arm, "ops": prog, "inject": {"at": pos, "exc": kind, "levels": lv}}, **fl_extra)
         else:
             # line-level crash inside library helpers called from a context body
             import copy as _copy
@@ -653,7 +690,7 @@ class C20(Sim):
                         node = node[idx] if j == 0 else node["body"][idx]
                     node["crash_line"] = line
                     node["levels"] = rng2.choice([0, 0, 1, 9])
-                    yield {"arm": arm, "ops": q}
+                    yield dict({"arm": arm, "ops": q}, **fl_extra)
 
     # ---- execution ---------------------------------------------------------
     def execute(self, trace: dict, keep_log: bool = False) -> Outcome:
@@ -685,7 +722,8 @@ class C20(Sim):
             sys.settrace(None)
             env.reset_settings()
         inj = trace.get("inject")
-        out.signature = "".join(it.sig) + (f"|{inj['at']}:{inj['exc']}:{inj['levels']}" if inj else "")
+        out.signature = trace.get("target", "g")[0] + ("L" if trace.get("lazy_fm") else "") + "".join(it.sig) + (
+            f"|{inj['at']}:{inj['exc']}:{inj['levels']}" if inj else "")
         out.nontrivial = st.get("outcomes.context_entered", 0) > 0
         out.digest = it.dig.hex()
         out.log = it.log
